@@ -33,6 +33,14 @@ CHECKS = {
              '(d+k <= end of record in progress), no premature accept, exact reassembly. Plus TLS handshake messages '
              'cut over records at every set of <= 2-3 positions.',
         design='§5 C04'),
+    'C12': dict(
+        technique='explicit-state BFS over edit sequences on real vector objects against a list model',
+        text='Every concrete ArrayBase subclass of the library (plus four tight-bound toy subclasses that run the '
+             'same ArrayBase code): BFS over ~60 concrete sequence-interface events to depth 2-3 (4-5 for the toy '
+             'classes, 1-3 from at-maximum / one-below-maximum vectors), states merged by (items, hidden size '
+             'counter); per transition the result is compared with a plain list and the bounds, refused edits must '
+             'leave the state untouched and use a data-length error; per state compose/prefix/round-trip.',
+        design='§5 C12'),
     'C17': dict(
         technique='exhaustive explicit-state enumeration (all pairs, triples, permutations) on the real class',
         text='Complete: every ordered pair and triple of all defined versions, every permutation of every '
